@@ -66,6 +66,41 @@ def artefacts_file(path, workdir, tag):
     out["cli_stdout"] = buf.getvalue()
     out["cli_json"] = open(jp + ".cli", "rb").read()
     out["cli_csv"] = open(cp + ".cli", "rb").read()
+    # the other command-line tools on the same input
+    def run_tool(mod, args):
+        b = io.StringIO()
+        old = sys.argv
+        try:
+            sys.argv = [mod.__name__.rsplit(".", 1)[-1]] + args
+            with contextlib.redirect_stdout(b), contextlib.redirect_stderr(io.StringIO()):
+                try:
+                    mod.main()
+                except SystemExit:
+                    pass
+        finally:
+            sys.argv = old
+        return b.getvalue()
+
+    import rnapolis.clashfinder as clashfinder
+    import rnapolis.motif_extractor as motif_extractor
+    import rnapolis.splitter as splitter
+
+    out["clashfinder_stdout"] = run_tool(clashfinder, [path, "--enable-molprobity-mode", "--ignore-occupancy"])
+    bp = os.path.join(workdir, f"{tag}.tool.bpseq")
+    with open(bp, "w") as f:
+        f.write(s2.bpseq)
+    out["motif_extractor_stdout"] = run_tool(motif_extractor, ["--bpseq", bp])
+    sd = os.path.join(workdir, f"{tag}.split")
+    run_tool(splitter, ["-o", sd, "-f", "keep", path])
+    parts = []
+    if os.path.isdir(sd):
+        for fn in sorted(os.listdir(sd))[:3]:
+            parts.append(fn.replace(os.path.basename(path).rsplit(".", 1)[0], "INPUT") + "\n" + open(os.path.join(sd, fn)).read())
+        import shutil
+        shutil.rmtree(sd, ignore_errors=True)
+    out["splitter_files"] = "\n====\n".join(parts)
+    with contextlib.suppress(OSError):
+        os.remove(bp)
     # atom table writers
     with open(path) as f:
         table = parse_pdb_atoms(f) if path.endswith(".pdb") else parse_cif_atoms(f)
